@@ -4,8 +4,8 @@ import BiotiteModel.Proofs.C02Getitem
 
 `Spec.step` is written from the property statement (first type wins at construction, the new type on update, the
 argument on merge, disjoint union with offset, relabelling by the selection); it never looks at a bond array.
-`Valid st op` is the acceptance domain of the statement (indices in `[-n, n)`, types in `0..9`, duplicate-free in-range
-selections, masks of the right length, non-negative offsets).
+`Valid st op` is the acceptance domain of the statement (indices in `[-n, n)`, types in `0..9`, duplicate-free selections
+(only integer index arrays can contain duplicates, `resolveIdx_sound`), masks of the right length, non-negative offsets).
 -/
 namespace BiotiteModel.C02
 open BiotiteModel
@@ -88,7 +88,7 @@ def Valid (st : State) : Op → Prop
   | .remove i j => st.cur.n < 2147483648 ∧ InR st.cur.n i ∧ InR st.cur.n j
   | .removeTo i => st.cur.n < 2147483648 ∧ InR st.cur.n i
   | .offset k => 0 ≤ k ∧ k ≤ 2147483647
-  | .getitem ix => ∃ sel, resolveIdx st.cur.n ix = some sel ∧ sel.Nodup ∧ ∀ a ∈ sel, a < st.cur.n
+  | .getitem ix => ∃ sel, resolveIdx st.cur.n ix = some sel ∧ sel.Nodup
   | _ => True
 
 def SpecState.step (S : SpecState) : Op → SpecState
@@ -195,6 +195,15 @@ theorem step_of_apply {st st' : State} {op : Op} (h : apply st op = .ok st') : s
   simp [step, h]
 
 /-! ## views -/
+
+theorem incident_length_le_deg (bs : List Bond) (k : Nat) : (incident bs k).length ≤ deg bs k := by
+  induction bs with
+  | nil => simp [incident]
+  | cons c cs ih =>
+    simp only [incident, List.filterMap_cons, deg_cons] at ih ⊢
+    by_cases h1 : c.1 = k <;> by_cases h2 : c.2.1 = k <;> simp [h1, h2] <;> omega
+
+
 
 theorem rowOf_cons (c : Bond) (cs : List Bond) (k : Nat) :
     rowOf (c :: cs) k =
